@@ -20,6 +20,8 @@ type Ctx struct {
 	Seed int64
 	// premises already run in this check (they are shared by several clauses)
 	statelessDone, statelessCompDone bool
+	premData, premShape              map[string]bool // Tensor methods already re-checked by a premise of this check
+	ruleOpsDone                      bool
 	thresholdOnly                    bool // RunData enumerates only the size-threshold shapes
 	probeResults                     bool // RunData feeds results to Scale / Sum probes
 	nonFinite                        bool // labelled instances with infinite elements are included by RunData
